@@ -48,6 +48,7 @@ def SET(t): return T('set', (t,))
 def MAP(k, v): return T('map', (k, v))
 def TUPLE(*ts): return T('tuple', tuple(ts))
 def CLS(name): return T('cls', (name,))
+def ARR(k, v): return T('arr', (k, v))      # total array (ghost state), no option wrapping
 
 
 BV8 = z3.BitVecSort(8)
@@ -184,6 +185,8 @@ def to_sort(t: T, reg: Registry):
         return z3.ArraySort(to_sort(t.args[0], reg), z3.BoolSort())
     if k == 'map':
         return z3.ArraySort(to_sort(t.args[0], reg), opt_sort(to_sort(t.args[1], reg)).sort)
+    if k == 'arr':
+        return z3.ArraySort(to_sort(t.args[0], reg), to_sort(t.args[1], reg))
     if k == 'tuple':
         return tuple_sort([to_sort(a, reg) for a in t.args]).sort
     if k == 'cls':
